@@ -117,7 +117,8 @@ def gen_env(rnd, nmsgs=None, big=False, oneof_defaults=False, wide=False):
         nf = rnd.choice([0, 1, 2, 3, 5, 8, 12]) if not big else rnd.choice([17, 40, 130, 200])
         if wide and idx == 0:
             proto3 = False
-            nf = rnd.choice([130, 160, 200])
+            # beyond 128: heap bitmap; beyond 256: field indices that need more than a byte (wide = 300 asks for that)
+            nf = wide if (wide is not True and wide > 1) else rnd.choice([130, 200, 300])
         ids = gen_ids(rnd, nf, dense=big or rnd.random() < 0.4)
         n_oneofs = 0
         fields = []
@@ -381,6 +382,10 @@ def gen_unknown(rnd, desc, n=None):
 BUDGET = [0]
 
 
+NULL_REQ = [0.0]    # probability that a REQUIRED sub-message pointer is left NULL (serialisable: written as an empty message;
+                    # rejected by protobuf_c_message_check); set by the callers that want such messages
+
+
 def gen_msg(rnd, env, d, depth=0, canon=False):
     """a well-formed message of type d.  canon: only states the parser itself can produce
     (so that pack -> unpack gives back the same text).  A global cell budget keeps one
@@ -410,7 +415,9 @@ def gen_msg(rnd, env, d, depth=0, canon=False):
                     n = rnd.choice([126, 127, 128, 129, 300])
                 slots.append(('R', n, [gen_cell(rnd, env, f, depth, True, canon) for _ in range(n)]))
         elif f.label == 'REQ':
-            if f.type == 'MESSAGE' and depth >= 4:
+            if f.type == 'MESSAGE' and not canon and NULL_REQ[0] > 0 and rnd.random() < NULL_REQ[0]:
+                slots.append(('S', 0, ('G', None)))
+            elif f.type == 'MESSAGE' and depth >= 4:
                 # cannot stop here: required sub-message, keep it minimal
                 slots.append(('S', 0, gen_cell(rnd, env, f, depth, canon=canon)))
             else:
